@@ -139,6 +139,12 @@ def run(chk):
             jobs.append(("prod-%s-fischlin" % g, ["-mode", "prod", "-group", g, "-comps", "fischlin,randfischlin", "-proofs", "1", "-bits", "1",
                                                    "-maxmut", "150", "-protos", "schnorr,okamoto,batch"]))
 
+    only = [t for t in os.environ.get("C08_ONLY", "").split(",") if t]   # development aid: restrict to matching job names ("mc" = model checking)
+    if only:
+        jobs = [j for j in jobs if any(t in j[0] for t in only)]
+        if "mc" not in only:
+            mcs = []
+
     def mc(mod, cfg):
         return lambda: vlib.tlc(SPEC, mod, cfg, workers=2 if quick else 4, timeout=3000)
     tasks = [("mc:" + c, mc(m, c)) for m, c in mcs]
